@@ -356,6 +356,54 @@ def player_rule(F, rep, spec):
     st = F.structs.get("game::Player")
     rep.ob("player.wiring", len(lits) == 1 and sorted(f["name"] for f in lits[0]["fields"]) == sorted(f["name"] for f in st["fields"]) and all(L.local_name(f["e"]) for f in lits[0]["fields"]), PL, "Player",
            "player() must build exactly one game::Player with every field initialised from a decoded local")
+    # an optional Player field is present exactly when its own version tier's block is: its Option derives from that tier's
+    # parameter(s) alone (a field zipped with a later tier's Option would vanish for the versions in between)
+    if len(lits) == 1 and len(b["tir"]["params"]) == 8:
+        pn = [p.get("name") for p in b["tir"]["params"]]
+        pid = {p.get("id"): p.get("name") for p in b["tir"]["params"]}
+        env_ = tir.LetEnv(root)
+
+        def sources(e, depth=0):
+            e = strip(e)
+            if depth > 12:
+                return {"?"}
+            k = e.get("k")
+            if k == "Try":
+                return sources(e["e"], depth + 1)
+            if k == "Path" and e.get("res") == "local":
+                if e.get("id") in pid:
+                    return {pid[e["id"]]}
+                if e.get("id") in env_.lets:
+                    return sources(env_.lets[e["id"]], depth + 1)
+                return {"?" + str(e.get("name"))}
+            if k == "MethodCall" and e["method"] in ("map", "transpose", "as_ref", "as_mut", "copied", "cloned", "ok_or", "ok_or_else", "as_deref"):
+                return sources(e["recv"], depth + 1)
+            if k == "MethodCall" and e["method"] == "zip" and len(e.get("args", [])) == 1:
+                return sources(e["recv"], depth + 1) | sources(e["args"][0], depth + 1)
+            if k == "Match" and (e["scrut"].get("ty") or "").lstrip("&").startswith("std::option::Option<") and len(e["arms"]) == 2:
+                kinds = set()
+                for a in e["arms"]:
+                    body = L.strip_try(a["body"])
+                    while body.get("k") == "Block" and body.get("tail") is not None:
+                        body = L.strip_try(body["tail"])
+                    kinds.add("some" if (declared(body) or "").endswith("::Some") else ("none" if (body.get("path") or "").endswith("::None") else "?"))
+                if kinds == {"some", "none"}:
+                    return sources(e["scrut"], depth + 1)
+            if k == "If" and e["cond"].get("k") == "LetCond" and e.get("else") is not None:
+                t_, f_ = L.strip_try(e["then"]), L.strip_try(e["else"])
+                while t_.get("k") == "Block" and t_.get("tail") is not None:
+                    t_ = L.strip_try(t_["tail"])
+                if (declared(t_) or "").endswith("::Some") and (f_.get("path") or "").endswith("::None"):
+                    return sources(e["cond"]["init"], depth + 1)
+            return {"?"}
+        want_src = {"ucf": {pn[3]}, "name_tag": {pn[4]}, "netplay": {pn[5], pn[6]}}
+        for f_ in lits[0]["fields"]:
+            nm = f_["name"].replace("r#", "")
+            if nm in want_src:
+                got = sources(f_["e"])
+                rep.ob("player.optional-presence", got == want_src[nm], PL, nm + ".presence",
+                       "Player.%s must be present exactly when its own tier's block is (parameters %s); its Option derives from %s" % (nm, sorted(want_src[nm]), sorted(got)), tir.sp(f_["e"]),
+                       sample={"field": nm, "sources": sorted(got)})
     # name tag / netplay name / code decoded from their whole per-port arrays (parameters 4, 5, 6)
     whole = {}
     for x in tir.walk(root):
@@ -475,6 +523,28 @@ def placements_ok(b):
                     while v.get("k") == "Unary" and v.get("op") == "Deref":
                         v = strip(v["e"])
                     return bool(port_from_n and v.get("id") == xid)
+    # for n in 0..NUM_PORTS { .. player_end(Port::try_from(n as u8).unwrap(), placements[n])? .. }
+    for lp in tir.walk(b["tir"]["value"]):
+        if lp.get("k") == "For" and lp["pat"].get("k") == "Bind":
+            rg = strip(lp["iter"])
+            if not (rg.get("k") == "Struct" and (rg.get("path") or "").endswith("ops::Range")):
+                continue
+            f = {x["name"]: strip(x["e"]) for x in rg["fields"]}
+            if tir.lit_int(f.get("start") or {}) != 0 or not (f.get("end", {}).get("path") or "").endswith("NUM_PORTS"):
+                continue
+            nid = lp["pat"]["id"]
+            env = tir.LetEnv(lp["body"])
+            for pe in tir.walk(lp["body"]):
+                if pe.get("k") == "Call" and (declared(pe) or "") == "io::slippi::de::player_end" and len(pe["args"]) == 2:
+                    a0 = env.resolve(pe["args"][0])
+                    a1 = env.resolve(pe["args"][1])
+                    port_from_n = any(x.get("k") == "Call" and (declared(x) or "").endswith("TryFrom::try_from") and any(y.get("k") == "Path" and y.get("id") == nid for y in tir.walk(x)) for x in tir.walk(a0)) and "Port" in (pe["args"][0].get("ty") or "")
+                    ix = strip(a1)
+                    idx = strip(ix.get("index") or {})
+                    while idx.get("k") == "Cast":
+                        idx = strip(idx["e"])
+                    plc = ix.get("k") == "Index" and (tir.place(ix["base"]) or "").endswith("placements") and idx.get("id") == nid
+                    return bool(port_from_n and plc)
     return False
 
 
@@ -579,6 +649,38 @@ def immutable_values_rule(F, rep):
     rep.control("mutable-projection scan sees an assignment to Player.stocks", [m for _, m in tir.mutable_projections(probe, rx)] == [True])
 
 
+def end_size_rule(F, rep):
+    """game::End::size(version) — what the reader compares a trailing Game End against and what the writer declares for a game
+    without one — is the spec's Game End payload length of that version, for every version (E5 over the order types)"""
+    import order
+    spec = model.load_spec("start_spec.json")["end"]["payload_len_classes"]
+    classes = sorted((tuple(int(x) for x in c["since"].split(".")), c["len"]) for c in spec)
+
+    def want(v):
+        out = classes[0][1]          # versions below the first release use the first layout
+        for since, ln in classes:
+            if (v[0], v[1]) >= since:
+                out = ln
+        return out
+    import valeval
+    order.decide(F, rep, "E5.end-size", "game::End::size", [3], want, allow=(order.GTE, order.LT), cls=valeval.ValueEval)
+
+
+def exact_reads_rule(F, rep):
+    """the block decoders read their cursor with exact-length reads only (read_exact / byteorder): a plain `Read::read` on a
+    slice returns what is left and Ok, so a block ending inside a field would yield zeros instead of an error"""
+    import reach
+    G = reach.Graph(F)
+    R = G.reachable([GS, GE, PL])
+    bad = []
+    for o in sorted(R):
+        for bp, i, t in G.calls(o):
+            if (t.get("fn") or "") in ("std::io::Read::read", "std::io::Read::read_to_end", "std::io::Read::read_buf", "std::io::Read::read_vectored"):
+                bad.append("%s in %s at %s" % (t.get("fn"), reach.short(o), reach.spstr(t.get("sp"))))
+    rep.ob("bytes.exact-reads", not bad, GS, "reads", "a block decoder reads its cursor without an exact length (%s): a short block would be decoded from zeros" % "; ".join(bad[:3]))
+    rep.floor("functions reachable from the block decoders", len(R), 5)
+
+
 def json_rule(F, rep):
     """omission of absent optionals and of the raw bytes in the JSON rendering, from the derived Serialize bodies"""
     want_skip = {"game::Start": ["is_pal", "is_frozen_ps", "scene", "language", "match"], "game::End": ["lras_initiator", "players"],
@@ -638,9 +740,12 @@ def run(F, rep, tier):
     no_extra_refusal_rule(F, rep)
     whole_payload_rule(F, rep)
     immutable_values_rule(F, rep)
+    end_size_rule(F, rep)
+    exact_reads_rule(F, rep)
     # name tag / netplay name / connect code: the bytes before the first NUL, strictly decoded (shared with C19)
     from props import C19
     C19.decode_rule(F, rep)
+    C19.field_slicing(F, rep)
     # raw block retained (C01 clause 3)
     from props import C01
     C01.raw_blocks_rule(F, rep)
